@@ -394,7 +394,7 @@ def _history(ctx, i, length):
 
 def run(ctx):
     vtime.install()
-    n = 40 if ctx.quick else 1500
+    n = 40 if ctx.quick else 250
     length = 14 if ctx.quick else 40
     pairs = set()
     for i in range(n):
